@@ -2,6 +2,8 @@ import Crusta.Proofs.Iso
 import Crusta.Proofs.Maximal
 import Crusta.Proofs.SolveIDAux
 import Crusta.Proofs.Assemble
+import Crusta.Proofs.StaticAll
+import Crusta.Proofs.StoreIccma
 
 /-!
 # C11 — statuses are invariant under presentation and mutually consistent (property theorems)
@@ -88,5 +90,60 @@ component changes nothing inside the others -/
 theorem locality {g : G} {parts : List (Nat → Bool)} (hp : Parts g parts)
     (hfin : ∃ n, ∀ a, g.live a = true → a < n) (σ : Sem) (S : ASet) (hS : ∀ a, S a = true → g.live a = true) :
     g.Ext σ S ↔ ∀ U ∈ parts, (g.restrict U).Ext σ (inter S U) := ext_parts hp hfin σ S hS
+
+/-- **the solvers' statuses do not depend on the presentation** (on the solver programs): two views
+that present the same graph — the same arguments and the same attack relation, declared in any
+order, any number of times, reached by different update histories — give the same credulous and
+the same skeptical status, for every solver type, admissible encoders, sound reply lists, with or
+without certificate -/
+theorem solver_status_presentation_invariant (sk : SolverKind) (v1 v2 : FwView) (g1 g2 : G)
+    (hv1 : v1.Ok g1) (hv2 : v2.Ok g2)
+    (hlive : ∀ a, g1.live a = g2.live a) (hatt : ∀ a b, g1.att a b ↔ g2.att a b)
+    (args : List Nat) (hargs : ∀ a ∈ args, g1.live a = true)
+    (cfg1 cfg2 : Cfg) (h1 : CfgOK sk cfg1) (h2 : CfgOK sk cfg2) (c1 c2 : Bool)
+    (w1 w2 : World) (hb1 : w1.Bounded) (hb2 : w2.Bounded) (rs1 rs2 : List Reply)
+    (a1 a2 : AccAns) (cv1 cv2 : Bool) (w1' w2' : World) :
+    (∀ p1 p2, entryProg sk cfg1 v1 (.dc c1 args) = some p1 → entryProg sk cfg2 v2 (.dc c2 args) = some p2 →
+      RunSound p1 rs1 w1 → RunSound p2 rs2 w2 →
+      interp p1 rs1 w1 = (.done (.acc a1 cv1), w1') → interp p2 rs2 w2 = (.done (.acc a2 cv2), w2') →
+      a1.status = a2.status) ∧
+    (∀ p1 p2, entryProg sk cfg1 v1 (.ds c1 args) = some p1 → entryProg sk cfg2 v2 (.ds c2 args) = some p2 →
+      RunSound p1 rs1 w1 → RunSound p2 rs2 w2 →
+      interp p1 rs1 w1 = (.done (.acc a1 cv1), w1') → interp p2 rs2 w2 = (.done (.acc a2 cv2), w2') →
+      a1.status = a2.status) := by
+  have hg : g1 = g2 := by
+    cases g1; cases g2
+    simp only [G.mk.injEq]
+    exact ⟨funext hlive, funext fun a => funext fun b => propext (hatt a b)⟩
+  subst hg
+  constructor
+  · intro p1 p2 hp1 hp2 hs1 hs2 hr1 hr2
+    obtain ⟨_, hd1, _⟩ := static_answers_conform sk cfg1 h1 v1 g1 hv1 (.dc c1 args) (fun x hx => hargs x hx) p1 hp1 w1 hb1 rs1 hs1 _ w1' hr1
+    obtain ⟨_, hd2, _⟩ := static_answers_conform sk cfg2 h2 v2 g1 hv2 (.dc c2 args) (fun x hx => hargs x hx) p2 hp2 w2 hb2 rs2 hs2 _ w2' hr2
+    exact (status_determined sk.sem g1 args c1 c2 a1 a2).1 hd1 hd2
+  · intro p1 p2 hp1 hp2 hs1 hs2 hr1 hr2
+    obtain ⟨_, hd1, _⟩ := static_answers_conform sk cfg1 h1 v1 g1 hv1 (.ds c1 args) (fun x hx => hargs x hx) p1 hp1 w1 hb1 rs1 hs1 _ w1' hr1
+    obtain ⟨_, hd2, _⟩ := static_answers_conform sk cfg2 h2 v2 g1 hv2 (.ds c2 args) (fun x hx => hargs x hx) p2 hp2 w2 hb2 rs2 hs2 _ w2' hr2
+    exact (status_determined sk.sem g1 args c1 c2 a1 a2).2 hd1 hd2
+
+/-- instance: two ICCMA'23 files declaring the same attacks in different orders, with repetitions,
+are two presentations of one graph -/
+theorem iccma_files_same_graph (n : Nat) (atts atts' : List (Nat × Nat))
+    (h : ∀ p ∈ atts, p.1 < n ∧ p.2 < n) (hsame : ∀ p, p ∈ atts ↔ p ∈ atts') :
+    (Store.ofIccma n atts).view.Ok (Store.ofIccma n atts).g ∧
+    (Store.ofIccma n atts').view.Ok (Store.ofIccma n atts').g ∧
+    (∀ a, (Store.ofIccma n atts).g.live a = (Store.ofIccma n atts').g.live a) ∧
+    (∀ a b, (Store.ofIccma n atts).g.att a b ↔ (Store.ofIccma n atts').g.att a b) := by
+  have h' : ∀ p ∈ atts', p.1 < n ∧ p.2 < n := fun p hp => h p ((hsame p).2 hp)
+  have g1 := Store.ofIccma_g n atts h
+  have g2 := Store.ofIccma_g n atts' h'
+  refine ⟨Store.ofIccma_view_ok n atts h, Store.ofIccma_view_ok n atts' h', ?_, ?_⟩
+  · intro a
+    show (Store.ofIccma n atts).hasId a = (Store.ofIccma n atts').hasId a
+    exact Bool.eq_iff_iff.2 ((g1.1 a).trans (g2.1 a).symm)
+  · intro a b
+    show (Store.ofIccma n atts).HasAtt a b ↔ (Store.ofIccma n atts').HasAtt a b
+    rw [g1.2 a b, g2.2 a b]
+    exact hsame (a, b)
 
 end Crusta.C11
